@@ -99,3 +99,6 @@ Definition api_mk_irreg (extra : list (N * N)) (evs : list (N * list byte)) (jun
 Definition api_emit_irr (r : replay) (x : irreg) : list byte := emit_irr r x.
 Definition api_wf_irreg2_b (r : replay) (x : irreg) : bool :=
   match game_start (r_start r) with ROk st => wf_irreg2_b r st x | _ => false end.
+
+From Peppi Require Import Model.Abstract.
+Definition api_in_class (bs : list byte) : option bool := in_class bs.
